@@ -11,7 +11,7 @@ from ..engine.repo import AnalysisError, dotted
 from ..engine.report import Check
 from ..engine.terms import C, Term, show, substitute, subterms
 from ..engine.walker import Event
-from .common import functions_mentioning, short
+from .common import functions_mentioning, only_called_from, short
 
 W = "skepticoin.wallet."
 WC = W + "Wallet"
@@ -209,10 +209,12 @@ def atomic_replace(ck: Check, rule: str, qual: str, final_text: str, what: str) 
         ck.ok(rule, construct, what, s.fi.loc)
 
 
-def final_path_writers(ck: Check, rule: str, final: str, allowed: Dict[str, str]) -> None:
+def final_path_writers(ck: Check, rule: str, final: str, allowed: Dict[str, str], replacer: Optional[str] = None) -> None:
+    """`replacer`: the one function whose write-side-file-then-os.replace sequence was verified; an os.replace onto the final path
+    anywhere else (or in a helper not only it calls) moves an unverified - possibly partial - file into place."""
     n = 0
-    ctl = _path_writers(ast.parse("open('%s', 'w')\nimport os\nos.remove('%s')\n" % (final, final)), final, lambda n_: None)
-    if len(ctl) != 2:
+    ctl = _path_writers(ast.parse("open('%s', 'w')\nimport os\nos.remove('%s')\nos.replace('x', '%s')\n" % (final, final, final)), final, lambda n_: None)
+    if len(ctl) != 3:
         ck.unknown(rule, "positive control", "the final-path writer scan did not flag its control snippet")
         return
     for m in ck.repo.modules.values():
@@ -232,6 +234,8 @@ def final_path_writers(ck: Check, rule: str, final: str, allowed: Dict[str, str]
             key = "%s:%s" % (fn, what.split("(")[0])
             if key in allowed:
                 ck.note("%s: %s %s — %s" % (rule, short(fn), what, allowed[key]))
+                continue
+            if what.startswith("os.replace") and replacer is not None and (fn == replacer or only_called_from(ck, fn, {replacer}, 0)):
                 continue
             n += 1
             ck.violated(rule, "%s writes %r directly" % (short(fn), final),
@@ -262,9 +266,33 @@ def _path_writers(tree: ast.AST, final: str, fold: Any) -> List[Tuple[int, str, 
                 out.append((n.lineno, "open(%r, %r)" % (final, mode), n))
         elif d in ("os.remove", "os.unlink", "os.truncate") and n.args and val(n.args[0]) == final:
             out.append((n.lineno, "%s(%r)" % (d, final), n))
-        elif d in ("os.rename", "shutil.move", "shutil.copy", "shutil.copyfile") and len(n.args) == 2 and val(n.args[1]) == final:
+        elif d in ("os.rename", "os.replace", "shutil.move", "shutil.copy", "shutil.copyfile") and len(n.args) == 2 and val(n.args[1]) == final:
             out.append((n.lineno, "%s(.., %r)" % (d, final), n))
     return out
+
+
+def r15_6(ck: Check) -> None:
+    """a key is given back (restore_annotated_public_key) only in memory, when a run ends: the wallet is not saved afterwards in the
+    same function. Whether the key was already paid by a published block is not known at that point; persisting the give-back would let
+    the next run hand the same key out again."""
+    n = 0
+    for fi in functions_mentioning(ck, "restore_annotated_public_key"):
+        if fi.qualname.startswith(WC):
+            continue
+        s = ck.summ(fi.qualname, 0)
+        rs = [e for e in s.events if e.kind == "call" and not e.chain and WC + ".restore_annotated_public_key" in e.targets]
+        if not rs:
+            continue
+        n += len(rs)
+        saves = [e for e in s.events if e.kind == "call" and not e.chain and W + "save_wallet" in e.targets]
+        construct = "%s: a key given back is not written to the wallet file (no save_wallet after restore_annotated_public_key)" % short(fi.qualname)
+        late = [e for e in saves if any(e.seq > r.seq for r in rs)]
+        if late:
+            ck.violated("R15.6", construct, "save_wallet follows the give-back: on the failure path after a found block was published the key that "
+                        "block pays is persisted as unused and handed out again by the next run", late[0].loc)
+        else:
+            ck.ok("R15.6", construct, "%d give-back site(s)" % len(rs), rs[0].loc)
+    ck.expect_count("R15.6", "key give-back sites", n, 1)
 
 
 def r15_4(ck: Check) -> None:
@@ -275,7 +303,7 @@ def r15_4(ck: Check) -> None:
         ck.ok("R15.4", "save_wallet writes wallet.dump(f) of the wallet it was given", "", dump[0].loc)
     else:
         ck.violated("R15.4", "save_wallet writes wallet.dump(f) of the wallet it was given", "%d dump calls" % len(dump), s.fi.loc)
-    final_path_writers(ck, "R15.4", "wallet.json", {})
+    final_path_writers(ck, "R15.4", "wallet.json", {}, replacer=W + "save_wallet")
 
 
 def r15_5(ck: Check) -> None:
@@ -317,6 +345,7 @@ def check(ck: Check) -> None:
     ck.run("R15.2", "hand-out removes, restore is the inverse", lambda: r15_2(ck))
     ck.run("R15.3", "persist before expose, at every call site", lambda: r15_3(ck))
     ck.run("R15.4", "atomic replace of wallet.json", lambda: r15_4(ck))
+    ck.run("R15.6", "a key given back at shutdown is not persisted", lambda: r15_6(ck))
     ck.run("R15.5", "partition preserved; balance over all keys", lambda: r15_5(ck))
     from .c03 import r03_3, r03_4
     ck.run("R03.4", "per-key balances = unspent outputs paying the key (updater agreement)", lambda: (r03_4(ck), r03_3(ck)))
